@@ -156,6 +156,18 @@ fn unhinted<'a>(stream: &'a [u8]) -> impl Iterator<Item = u8> + 'a {
     })
 }
 
+/// The buffer encoder over the payload handed in as one of five kinds of iterator (see `iter_flavour`).
+pub fn encode_any<B: Buffer>(p: &[u8]) -> Result<B, sml_rs::util::OutOfMemory> {
+    use sml_rs::transport::encode;
+    match iter_flavour(p) {
+        0 => encode::<B>(p),
+        1 => encode::<B>(p.to_vec()),
+        2 => encode::<B>(p.iter().filter(|_| true)),
+        3 => encode::<B>(unhinted(p)),
+        _ => encode::<B>(p.iter().copied().chain(std::iter::empty())),
+    }
+}
+
 pub fn decode_fn(stream: &[u8]) -> Vec<Ev> {
     let res = match iter_flavour(stream) {
         0 => decode(stream),
